@@ -84,7 +84,8 @@ func (h *headers) BeaconBlockHeader(ctx context.Context, opts *api.BeaconBlockHe
 				return nil, failure(k)
 			}
 			return &api.Response[*apiv1.BeaconBlockHeader]{Data: &apiv1.BeaconBlockHeader{
-				Root: r, Canonical: true,
+				Root: r, Canonical: r[31]%3 != 0, // a third of the blocks have been orphaned: the node still knows them
+
 				Header: &phase0.SignedBeaconBlockHeader{Message: &phase0.BeaconBlockHeader{Slot: s}},
 			}, Metadata: map[string]any{}}, nil
 		}
